@@ -6,7 +6,7 @@ CONSTANTS MAXLEN, STRIDE
 Leaves0 ==
   { <<"detector", "characteristics", f>> : f \in {"quantum_efficiency", "charge_to_volt_conversion", "pre_amplification",
                                                    "full_well_capacity", "adc_bit_resolution"} }
-  \cup { <<"detector", "environment", "temperature">> }
+  \cup { <<"detector", "environment", "temperature">>, <<"detector", "environment", "wavelength">> }
   \cup { <<"detector", "geometry", f>> : f \in {"row", "col", "total_thickness", "pixel_vert_size", "pixel_horz_size"} }
   \cup { <<"pipeline", "photon_collection", "m1", "arguments", "a">>, <<"pipeline", "photon_collection", "m1", "arguments", "b">>,
          <<"pipeline", "photon_collection", "m1", "arguments", "opt", "level">>,
@@ -14,7 +14,8 @@ Leaves0 ==
          <<"pipeline", "photon_collection", "m1", "enabled">>,
          <<"pipeline", "charge_generation", "m2", "arguments", "c">>, <<"pipeline", "charge_generation", "m2", "enabled">> }
 Cfg0 == [leaves |-> Leaves0, disabled |-> { <<"pipeline", "charge_generation", "m2">> }]
-Tree0 == [l \in Leaves0 |-> IF FieldOf(l) \in Limited THEN Num(IF FieldOf(l) \in {"row", "col", "adc_bit_resolution"} THEN 8 ELSE 1, 1)
+Tree0 == [l \in Leaves0 |-> IF FieldOf(l) = "wavelength" THEN Unset      \* optional, not given at construction
+                             ELSE IF FieldOf(l) \in Limited THEN Num(IF FieldOf(l) \in {"row", "col", "adc_bit_resolution"} THEN 8 ELSE 1, 1)
                              ELSE IF FieldOf(l) = "enabled"
                                     THEN Txt(IF SubSeq(l, 1, 3) \in Cfg0.disabled THEN "bool:False" ELSE "bool:True")
                                     ELSE Txt("init")]
